@@ -24,6 +24,8 @@ pub enum Act {
     /// write an unterminated fragment, then close
     EofPartial(usize, String),
     Tick,
+    /// a second passes and simultaneous events of one connection are served in reverse order
+    TickReverse,
     /// put a line on the wire without letting the server read it yet
     Hold(usize, String),
     /// let the server read what is on the wire of this connection
@@ -38,7 +40,7 @@ impl Act {
     pub fn actor(&self) -> Option<usize> {
         match self {
             Act::Connect(i) | Act::Send(i, _) | Act::Eof(i) | Act::EofPartial(i, _) | Act::Hold(i, _) | Act::Release(i) | Act::SendHeldFirst(i, _) | Act::Raw(i, _) => Some(*i),
-            Act::Tick => None,
+            Act::Tick | Act::TickReverse => None,
         }
     }
     pub fn render(&self) -> String {
@@ -48,6 +50,7 @@ impl Act {
             Act::Eof(i) => format!("{}:<eof>", i),
             Act::EofPartial(i, l) => format!("{}:<eof after partial {:?}>", i, l),
             Act::Tick => "<tick 1s>".into(),
+            Act::TickReverse => "<tick 1s, simultaneous events in reverse order>".into(),
             Act::Hold(i, l) => format!("{}:<hold> {}", i, l),
             Act::Release(i) => format!("{}:<release>", i),
             Act::SendHeldFirst(i, l) => format!("{}:<held-first> {}", i, l),
@@ -62,6 +65,7 @@ impl Act {
             Act::Eof(i) => json!({"op":"eof","slot":i}),
             Act::EofPartial(i, l) => json!({"op":"eof_partial","slot":i,"line":l}),
             Act::Tick => json!({"op":"tick"}),
+            Act::TickReverse => json!({"op":"tick-reverse"}),
             Act::Hold(i, l) => json!({"op":"hold","slot":i,"line":l}),
             Act::Release(i) => json!({"op":"release","slot":i}),
             Act::SendHeldFirst(i, l) => json!({"op":"send_held_first","slot":i,"line":l}),
@@ -78,6 +82,7 @@ impl Act {
             "eof" => Act::Eof(slot?),
             "eof_partial" => Act::EofPartial(slot?, line?),
             "tick" => Act::Tick,
+            "tick-reverse" => Act::TickReverse,
             "hold" => Act::Hold(slot?, line?),
             "release" => Act::Release(slot?),
             "send_held_first" => Act::SendHeldFirst(slot?, line?),
@@ -258,6 +263,7 @@ pub fn apply(w: &mut World, a: &Act) -> Result<(), MachineryError> {
             w.eof(*i)
         }
         Act::Tick => w.tick(),
+        Act::TickReverse => w.tick_reverse(),
         Act::Hold(i, l) => {
             w.hold_line(*i, l);
             Ok(())
